@@ -17,7 +17,6 @@ import (
 	"runtime/debug"
 	"slices"
 	"sync"
-	"sync/atomic"
 	"time"
 )
 
@@ -240,7 +239,7 @@ func (s *vsimSim) fail(msg string) {
 }
 
 func (t *vsimTask) park(s *vsimSim, kind int, site string) {
-	s.mu.Lock()
+	s.lockMu()
 	t.kind = kind
 	t.site = site
 	t.parked = true
@@ -248,12 +247,27 @@ func (t *vsimTask) park(s *vsimSim, kind int, site string) {
 	if s.cur == t {
 		s.cur = nil
 	}
-	s.mu.Unlock()
+	s.unlockMu()
+	// (the hand-over of the token must not look like synchronisation of the library to the race detector)
+	vsimRaceOff()
 	select {
 	case s.wake <- struct{}{}:
 	default:
 	}
 	<-t.resume
+	vsimRaceOn()
+}
+
+func (s *vsimSim) lockMu() {
+	vsimRaceOff()
+	s.mu.Lock()
+	vsimRaceOn()
+}
+
+func (s *vsimSim) unlockMu() {
+	vsimRaceOff()
+	s.mu.Unlock()
+	vsimRaceOn()
 }
 
 func (s *vsimSim) token(where string) *vsimTask {
@@ -524,28 +538,28 @@ func vsimPerm(n int) []int {
 
 func (s *vsimSim) newTask(name string) *vsimTask {
 	t := &vsimTask{name: name, resume: make(chan struct{}, 1)}
-	s.mu.Lock()
+	s.lockMu()
 	s.tasks = append(s.tasks, t)
-	s.mu.Unlock()
+	s.unlockMu()
 	return t
 }
 
 func (s *vsimSim) runTask(t *vsimTask, f func()) {
 	defer func() {
 		if r := recover(); r != nil {
-			s.mu.Lock()
+			s.lockMu()
 			if !s.panicked {
 				s.panicked = true
 				s.panicMsg = fmt.Sprintf("panic in task %s: %v\n%s", t.name, r, debug.Stack())
 			}
-			s.mu.Unlock()
+			s.unlockMu()
 		}
-		s.mu.Lock()
+		s.lockMu()
 		t.done = true
 		if s.cur == t {
 			s.cur = nil
 		}
-		s.mu.Unlock()
+		s.unlockMu()
 	}()
 	t.park(s, vsimParkStart, t.name)
 	f()
@@ -576,29 +590,29 @@ func vsimStartCB(recv any) func() {
 		return func() {}
 	}
 	base := "cb:" + vsimNameOf(recv)
-	s.mu.Lock()
+	s.lockMu()
 	n := s.cbSeq[base]
 	s.cbSeq[base] = n + 1
 	s.cbLog = append(s.cbLog, vsimCBRec{base, time.Now()})
-	s.mu.Unlock()
+	s.unlockMu()
 	t := s.newTask(fmt.Sprintf("%s#%d", base, n))
 	t.owner = vsimOwnerOf(recv)
 	t.park(s, vsimParkStart, base)
 	return func() {
 		if r := recover(); r != nil {
-			s.mu.Lock()
+			s.lockMu()
 			if !s.panicked {
 				s.panicked = true
 				s.panicMsg = fmt.Sprintf("panic in task %s: %v\n%s", t.name, r, debug.Stack())
 			}
-			s.mu.Unlock()
+			s.unlockMu()
 		}
-		s.mu.Lock()
+		s.lockMu()
 		t.done = true
 		if s.cur == t {
 			s.cur = nil
 		}
-		s.mu.Unlock()
+		s.unlockMu()
 	}
 }
 
@@ -644,8 +658,11 @@ var vsimLoopN int64
 const vsimLoopHard = 50_000_000
 
 func vsimLoopTick() {
-	if atomic.AddInt64(&vsimLoopN, 1) > vsimLoopHard {
-		atomic.StoreInt64(&vsimLoopN, 0)
+	// plain counter: only the token holder executes library code, and an atomic here would make
+	// every loop iteration a synchronisation point in the eyes of the race detector
+	vsimLoopN++
+	if vsimLoopN > vsimLoopHard {
+		vsimLoopN = 0
 		panic(fmt.Sprintf("vsim: more than %d loop iterations without reaching a scheduling point", vsimLoopHard))
 	}
 }
@@ -749,7 +766,9 @@ func (s *vsimSim) releaseTask(t *vsimTask) {
 	if s.traceLog != nil {
 		s.traceLog(fmt.Sprintf("step %d run %s @%s kind=%d", s.nSteps, t.name, t.site, t.kind))
 	}
+	vsimRaceOff()
 	t.resume <- struct{}{}
+	vsimRaceOn()
 }
 
 // spawnClient starts a harness task; it is born parked.
